@@ -6,8 +6,8 @@
 (* the request names (RPCState.tla).  Total, deterministic, reporting.     *)
 (*                                                                         *)
 (* events (field `via` = "client" | "raw", `node`, `srv` only label)       *)
-(*   init                     a new world                                  *)
-(*   ref         h flat live root     reference data of height h (in order)*)
+(*   init                     a new world (the w-th init opens world w)    *)
+(*   ref      w h flat live root      reference data of height h (in order)*)
 (*   root        getstateroot by index / block hash                        *)
 (*   stateheight getstateheight                                            *)
 (*   getstate    findstates  proof  forged  getstorage  findstorage        *)
@@ -22,20 +22,26 @@
 (***************************************************************************)
 EXTENDS TraceIO, FiniteSets, SequencesExt, RPCState
 
-VARIABLES l, flat, live, roots
-vars == <<l, flat, live, roots>>
+VARIABLES l
+vars == <<l>>
 
-Init == l = 1 /\ flat = <<>> /\ live = <<>> /\ roots = <<>>
+Init == l = 1
+
+\* The reference data are CONSTANT-level look-ups into the log (TLC evaluates them once): world w (the w-th init event)
+\* has its ref events in height order, the h-th one describes height h.  Every other event names its world.
+NWorlds == Len(SelectSeq(TLog, LAMBDA e : e.event = "init"))
+RefIndex == [w \in 1..NWorlds |-> SelectSeq(TLog, LAMBDA e : e.event = "ref" /\ e.w = w)]
 
 Sorted(s) == \A i \in 1..(Len(s) - 1) :
                 \/ s[i].id < s[i + 1].id
                 \/ (s[i].id = s[i + 1].id /\ BLess(s[i].k, s[i + 1].k))
 
-S(h) == flat[h]
-Have(h) == h >= 1 /\ h <= Len(flat)
+Have(e) == e.w >= 1 /\ e.w <= NWorlds /\ e.h >= 1 /\ e.h <= Len(RefIndex[e.w])
 
 \* a contract addressed by hash / name carries ck (its Management record key); addressed by id it carries none
-Known(e) == IF e.ck = <<>> THEN TRUE ELSE ContractKnown(S(e.h), e.ck)
+Sof(e) == RefIndex[e.w][e.h].flat
+
+Known(e) == IF e.ck = <<>> THEN TRUE ELSE ContractKnown(Sof(e), e.ck)
 
 Lim(e) == IF e.count < 0 THEN e.cap ELSE Min2(e.count, e.cap)
 
@@ -48,15 +54,15 @@ ProofShows(p, id, key, val) ==
 
 Judge(e) ==
     CASE e.event = "root" ->
-            NameIf(e.ok => e.root = roots[e.h], "RootMatches")
+            NameIf(e.ok => e.root = RefIndex[e.w][e.h].root, "RootMatches")
             \cup NameIf(e.ret => e.ok, "RootAvailable")
       [] e.event = "stateheight" ->
             NameIf(e.ok /\ e.local = e.at, "StateHeightLocal")
       [] e.event = "getstate" ->
-            NameIf(e.ok => (Known(e) /\ Present(S(e.h), e.id, e.k) /\ e.v = Stored(S(e.h), e.id, e.k)), "GetStateSound")
-            \cup NameIf((e.ret /\ Known(e) /\ Present(S(e.h), e.id, e.k)) => e.ok, "GetStateComplete")
+            NameIf(e.ok => (Known(e) /\ Present(Sof(e), e.id, e.k) /\ e.v = Stored(Sof(e), e.id, e.k)), "GetStateSound")
+            \cup NameIf((e.ret /\ Known(e) /\ Present(Sof(e), e.id, e.k)) => e.ok, "GetStateComplete")
       [] e.event = "findstates" ->
-            NameIf(e.ok => (Known(e) /\ FindStatesOK(S(e.h), e.id, e.prefix, e.fromgiven, e.from, Lim(e), e.keys, e.vals, e.truncated)),
+            NameIf(e.ok => (Known(e) /\ FindStatesOK(Sof(e), e.id, e.prefix, e.fromgiven, e.from, Lim(e), e.keys, e.vals, e.truncated)),
                    "FindStatesSound")
             \cup NameIf((e.ret /\ Known(e) /\ (e.fromgiven => HasPrefix(e.from, e.prefix))) => e.ok, "FindStatesComplete")
             \cup NameIf(e.ok => /\ (e.fp.have => Len(e.keys) >= 1) /\ (e.lp.have => Len(e.keys) >= 1)
@@ -65,31 +71,34 @@ Judge(e) ==
                         "FindStatesProofsVerify")
             \cup NameIf(e.ok => (e.fp.have = (Len(e.keys) >= 1) /\ e.lp.have = (Len(e.keys) >= 2)), "i:ProofPresence")
       [] e.event = "paging" ->
-            NameIf(e.complete => WalkExact(S(e.h), e.id, e.prefix, e.pages), "PagingExact")
+            NameIf(e.complete => WalkExact(Sof(e), e.id, e.prefix, e.pages), "PagingExact")
             \cup NameIf(e.complete \/ e.stuck, "PagingTerminates")
             \cup NameIf(~e.stuck, "i:WalkPassesEmptyKey")
             \cup NameIf(e.predicted, "i:PagesAsModelled")
       [] e.event = "proof" ->
-            LET pres == Known(e) /\ Present(S(e.h), e.id, e.k) IN
-            NameIf((e.ret /\ pres) => (e.have /\ e.lok /\ e.lv = Stored(S(e.h), e.id, e.k)
-                                       /\ (e.rchecked => (e.rok /\ e.rv = Stored(S(e.h), e.id, e.k)))), "ProofComplete")
+            LET pres == Known(e) /\ Present(Sof(e), e.id, e.k) IN
+            NameIf((e.ret /\ pres) => (e.have /\ e.lok /\ e.lv = Stored(Sof(e), e.id, e.k)
+                                       /\ (e.rchecked => (e.rok /\ e.rv = Stored(Sof(e), e.id, e.k)))), "ProofComplete")
             \cup NameIf(/\ (~pres => ~(e.have /\ (e.lok \/ (e.rchecked /\ e.rok))))
-                        /\ ((pres /\ e.have /\ e.lok) => e.lv = Stored(S(e.h), e.id, e.k))
-                        /\ ((pres /\ e.have /\ e.rchecked /\ e.rok) => e.rv = Stored(S(e.h), e.id, e.k)), "ProofSound")
+                        /\ ((pres /\ e.have /\ e.lok) => e.lv = Stored(Sof(e), e.id, e.k))
+                        /\ ((pres /\ e.have /\ e.rchecked /\ e.rok) => e.rv = Stored(Sof(e), e.id, e.k)), "ProofSound")
       [] e.event = "forged" ->
-            NameIf(/\ (e.lok => (Present(S(e.h), e.id, e.k) /\ e.lv = Stored(S(e.h), e.id, e.k)))
-                   /\ ((e.rchecked /\ e.rok) => (Present(S(e.h), e.id, e.k) /\ e.rv = Stored(S(e.h), e.id, e.k))), "ProofSound")
+            NameIf(/\ (e.lok => (Present(Sof(e), e.id, e.k) /\ e.lv = Stored(Sof(e), e.id, e.k)))
+                   /\ ((e.rchecked /\ e.rok) => (Present(Sof(e), e.id, e.k) /\ e.rv = Stored(Sof(e), e.id, e.k))), "ProofSound")
       [] e.event = "getstorage" ->
-            NameIf(e.ok => (Known(e) /\ Present(S(e.h), e.id, e.k) /\ e.v = Stored(S(e.h), e.id, e.k)), "GetStorageSound")
-            \cup NameIf((e.ret /\ Known(e) /\ Present(S(e.h), e.id, e.k)) => e.ok, "GetStorageComplete")
+            NameIf(e.ok => (Known(e) /\ Present(Sof(e), e.id, e.k) /\ e.v = Stored(Sof(e), e.id, e.k)), "GetStorageSound")
+            \cup NameIf((e.ret /\ Known(e) /\ Present(Sof(e), e.id, e.k)) => e.ok, "GetStorageComplete")
       [] e.event = "findstorage" ->
-            NameIf(e.ok => (Known(e) /\ FindStorageOK(S(e.h), e.id, e.prefix, e.start, e.cap, e.keys, e.vals, e.truncated, e.next)),
+            NameIf(e.ok => (Known(e) /\ FindStorageOK(Sof(e), e.id, e.prefix, e.start, e.cap, e.keys, e.vals, e.truncated, e.next)),
                    "FindStorageSound")
             \cup NameIf((e.ret /\ Known(e)) => e.ok, "FindStorageComplete")
             \cup NameIf(e.ok => e.next = e.start + Len(e.keys) \/ (Len(e.keys) = 0 /\ e.next <= e.start), "i:NextOfFinalPage")
       [] e.event = "historic" ->
-            NameIf(\A i \in DOMAIN e.results : e.results[i] = "UNAVAILABLE" \/ e.results[i] = live[e.h][i], "HistoricEqualsLive")
-            \cup NameIf(Len(e.results) = Len(live[e.h]), "HistoricEqualsLive")
+            \* e.idx: which of the calls recorded live at h were repeated (positions in the reference list)
+            NameIf(/\ Len(e.results) = Len(e.idx)
+                   /\ \A i \in DOMAIN e.idx : e.idx[i] \in DOMAIN RefIndex[e.w][e.h].live
+                   /\ \A i \in DOMAIN e.results : e.results[i] = "UNAVAILABLE" \/ e.results[i] = RefIndex[e.w][e.h].live[e.idx[i]],
+                   "HistoricEqualsLive")
             \cup NameIf(e.ret => \A i \in DOMAIN e.results : e.results[i] # "UNAVAILABLE", "HistoricAvailable")
       [] e.event = "fee" ->
             NameIf(e.ok_client /\ e.ok_raw /\ e.f_client = e.f_raw, "FeeAgree")
@@ -108,13 +117,11 @@ Step ==
     /\ l <= Len(TLog)
     /\ l' = l + 1
     /\ LET e == TLog[l] IN
-       CASE e.event = "init" -> flat' = <<>> /\ live' = <<>> /\ roots' = <<>>
+       CASE e.event = "init" -> TRUE
          [] e.event = "ref" ->
-              /\ flat' = Append(flat, e.flat) /\ live' = Append(live, e.live) /\ roots' = Append(roots, e.root)
-              /\ Report(l, NameIf(Sorted(e.flat) /\ e.h = Len(flat) + 1, "h:RefSorted"), [h |-> e.h])
+              Report(l, NameIf(Sorted(e.flat) /\ Have(e) /\ RefIndex[e.w][e.h] = e, "h:RefSorted"), [h |-> e.h])
          [] OTHER ->
-              /\ UNCHANGED <<flat, live, roots>>
-              /\ IF "h" \in DOMAIN e /\ ~Have(e.h)
+              /\ IF "h" \in DOMAIN e /\ ~Have(e)
                     THEN Report(l, {"h:UnknownHeight"}, Ctx(e))
                     ELSE Report(l, Judge(e), Ctx(e))
 
